@@ -108,6 +108,8 @@ def match_finding(findings, prop, ob_name, tag, detail):
             continue
         if f.get("tag") and f["tag"] != tag:
             continue
+        if f.get("tag_regex") and not re.search(f["tag_regex"], tag or ""):
+            continue
         if f.get("detail_regex") and not re.search(f["detail_regex"], detail or ""):
             continue
         return f
